@@ -203,6 +203,14 @@ type node struct {
 
 // Run explores this shard's part of the space.
 func (cfg *Config) Run(c *core.Ctx) {
+	if c.Shard == 0 {
+		// harness self-validation: the simulated API server must agree with client-go's object tracker
+		if n, err := hx.SimSelfCheck(); err != nil {
+			c.NotExhaustive("simulated API server disagrees with client-go's object tracker: %v", err)
+		} else {
+			c.SetExtra("sim_fidelity_sequences_agreeing_with_client_go_tracker", n)
+		}
+	}
 	c.Bound("max_depth", fmt.Sprint(cfg.MaxDepth))
 	c.Bound("max_faulty_steps_per_path", fmt.Sprint(cfg.MaxFaulty))
 	for _, drv := range cfg.Drivers {
